@@ -98,6 +98,7 @@ const (
 	vCorLinkOneSidedBackward
 	vCorLinkDangling
 	vCorSetStrayValueKey
+	vCorFkBackrefBucketMissing
 	vCorCount
 )
 
@@ -257,6 +258,13 @@ func verifC09(corrupt bool) {
 			return db.GetOrCreateBucket(vFMembers).Put(typed(vIds[e]), nil)
 		case vCorLinkDangling:
 			return eb.GetOrCreateBucket(vFDepts).Put(typed(ghost), nil)
+		case vCorFkBackrefBucketMissing:
+			// the target has no back-reference bucket at all although it is referenced
+			if sp.boss[e] != d {
+				applicable = false
+				return nil
+			}
+			return db.DeleteBucket([]byte(vFEmps))
 		case vCorSetStrayValueKey:
 			// an extra key in the set index that is not even a bucket
 			return rolesIdx.Put([]byte("stray"), []byte("v"))
